@@ -355,7 +355,7 @@ VALUE_PART = weighted(
 HSET_PART = weighted(
     (2, st.lists(H_SEL, min_size=0, max_size=4)),
     (4, st.lists(st.tuples(st.sampled_from(['val', 'val', 'long']), st.integers(0, 23)), min_size=1, max_size=6)),
-    (1, st.sampled_from([8, 11, 12, 40, 130, 300]).flatmap(
+    (2, st.sampled_from([11, 12, 40, 130, 260, 300]).flatmap(
         lambda n: st.lists(st.tuples(st.sampled_from(['val', 'val', 'any']), st.integers(0, 23)), min_size=n, max_size=n)
     )),
 ).map(lambda sels: ('hset', sels))
